@@ -115,6 +115,7 @@ type FuncVC struct {
 	callGuard   map[string][]Term   // label -> reachability of each execution site
 	callBlock   map[string][]*ssa.BasicBlock // label -> block of each execution site
 	callInstr   map[string][]ssa.Instruction // label -> the call instruction of each executed site (same order)
+	nameLimit   ssa.Instruction              // see debugValue: resolve names as of this instruction
 	siteCache   map[string][]ssa.Instruction // label -> matching call instructions in source order
 	callPost    map[string][]*State // label -> heap after it (effects applied)
 	goalSkolemised bool // the last goal evaluation replaced a universal by fresh constants
